@@ -133,8 +133,12 @@ Definition raw_bodies_checked (s : state) : Prop :=
     exists r, rule_from_map (JObj rm) = Ok r.
 
 (** The linear state does not look at "schedule": a stored rule with a
-    "schedule" member must not also have a `when` map (else it is dispatched
-    by the linear state only: [scheduled_with_when_linear_only_counterexample]). *)
+    schedule ([is_scheduled]: a "schedule" member that is neither null nor the
+    empty string) must not also have a `when` map.  (Such a rule - AddFact
+    accepts it, AddRule does not - is a candidate of the linear state that
+    RuleFromMap then refuses, so neither kind dispatches it; nothing is assumed
+    about its pattern here, hence the exclusion.  A null or empty schedule is no
+    schedule: [empty_schedule_dispatched_by_both_example].) *)
 Definition scheduled_have_no_when (s : state) : Prop :=
   forall id fact rm,
     alookup id (st_facts s) = Some fact -> jget "rule" fact = Some (JObj rm) ->
@@ -165,3 +169,46 @@ Definition idx_lin_dispatch_agree_statement : Prop :=
       st_find_rules (as_linear s) ev now = (as_linear s, Ok c2) /\
       find_children (with_state l (as_linear s)) c2 ev now [] = (with_state l (as_linear s), Ok ch2) /\
       forall x, In x ch1 <-> In x ch2.
+
+(** * 6. A rule without a schedule is in the index from the moment it is added
+
+    (the repair of D59/D66).  "No schedule" is what RuleFromMap calls so: the
+    member is missing, null or the empty string. *)
+Definition no_schedule (rule : json) : Prop :=
+  jget "schedule" rule = None \/ jget "schedule" rule = Some JNull \/
+  jget "schedule" rule = Some (JStr "").
+
+(** After ANY history, a successful add of a rule without a schedule (whatever
+    was stored under the id before):
+    (a) the rule index holds the id under the path of the rule's pattern;
+    (b) the index search returns the id for every event the pattern lays over;
+    (c) the indexed state and the linear state over the same facts dispatch the
+        same rules, and this rule exactly when its `when` pattern matches. *)
+Definition unscheduled_rule_indexed_on_add_statement : Prop :=
+  forall hooks fail ops given x now fresh aux s' id,
+    let s := reachable Indexed hooks fail ops in
+    st_add s given x now fresh aux = (s', Ok id) ->
+    exists fact,
+      prepare_fact given x now fresh aux = Ok (id, fact) /\
+      alookup id (st_facts s') = Some fact /\
+      forall rule, extract_rule fact true = Ok (Some rule) -> no_schedule rule ->
+        (exists p π, rule_patterns rule = Some p /\ pattern_path p = Some π /\
+                     tr_has (st_pindex s') π id) /\
+        (forall p ev ids b,
+           rule_patterns rule = Some p -> pi_search (st_pindex s') ev = Ok ids ->
+           wf_json p = true -> wf_json ev = true -> no_propvar_keys p = true -> arrays_ok p = true ->
+           lay (lay_fuel p) b p ev = true -> In id ids) /\
+        (forall l' ev now' ids,
+           l_state l' = s' -> nothing_expired l' now' ->
+           pi_search (st_pindex s') ev = Ok ids ->
+           rules_in_fragment s' ev -> rules_index_ok s' -> bodies_checked s' ->
+           raw_bodies_checked s' -> scheduled_have_no_when s' ->
+           exists c1 ch1 c2 ch2,
+             st_find_rules s' ev now' = (s', Ok c1) /\
+             find_children l' c1 ev now' [] = (l', Ok ch1) /\
+             st_find_rules (as_linear s') ev now' = (as_linear s', Ok c2) /\
+             find_children (with_state l' (as_linear s')) c2 ev now' [] = (with_state l' (as_linear s'), Ok ch2) /\
+             (forall y, In y ch1 <-> In y ch2) /\
+             forall bss, In (id, bss) ch1 <->
+               exists p, when_pattern rule = Some p /\ snd (rule_enabled l' id now') = true /\
+                         core_match p ev [] = Ok bss /\ bss <> []).
